@@ -103,6 +103,48 @@ pub fn arbitrary_text(t: &mut Tape, max_chars: usize) -> String {
     s
 }
 
+
+/// A numeric-looking text: every documented spelling (decimal, exponent with E e D d, type
+/// suffix, & octal and &H hex over all sixteen digits in both cases), with blanks and junk.
+pub fn numeric_text(t: &mut Tape) -> String {
+    let mut x = String::new();
+    x.push_str(*t.pick(&["", "", " ", "  "]));
+    match t.below(6) {
+        0 | 1 => {
+            x.push_str(*t.pick(&["&H", "&h", "&"]));
+            let n = 1 + t.below(5);
+            for _ in 0..n {
+                x.push(*t.pick(&['0', '1', '7', '8', '9', 'A', 'B', 'C', 'D', 'E', 'F', 'a', 'b', 'c', 'd', 'e', 'f', 'G']));
+            }
+        }
+        _ => {
+            x.push_str(*t.pick(&["", "", "-", "+"]));
+            let n = t.below(9);
+            for _ in 0..n {
+                x.push(*t.pick(&['0', '1', '2', '5', '9']));
+            }
+            if t.chance(1, 2) {
+                x.push('.');
+                let n = t.below(5);
+                for _ in 0..n {
+                    x.push(*t.pick(&['0', '1', '2', '5', '9']));
+                }
+            }
+            if t.chance(1, 2) {
+                x.push(*t.pick(&['E', 'e', 'D', 'd']));
+                x.push_str(*t.pick(&["", "", "-", "+"]));
+                let n = t.below(3);
+                for _ in 0..n {
+                    x.push(*t.pick(&['0', '1', '2', '3']));
+                }
+            }
+            x.push_str(*t.pick(&["", "", "", "!", "#", "%"]));
+        }
+    }
+    x.push_str(*t.pick(&["", "", "", " ", "x", "é", ",5", " 1", "E", "D2", "&H1"]));
+    x
+}
+
 /// Mostly valid statements (from the manual, the repository's tests and the games' idioms).
 pub const SNIPPETS: &[&str] = &[
     "PRINT 1", "PRINT \"HELLO\";", "PRINT A;B$,C%", "?A+1", "A=1", "LET A=A+1", "A$=\"X\"+B$", "A%=A%+1", "B=A*2.5", "C#=1/3#", "I=I+1",
